@@ -251,6 +251,17 @@ fn build_afs(t: &Term, tmp: &mut Vec<PathBuf>, rt: &tokio::runtime::Runtime) -> 
             Box::new(AsyncOverlayFS::new(&roots))
         }
         Term::Fault(inner) => build_afs(inner, tmp, rt),
+        Term::OvlSub(n) => {
+            let shared = AsyncVfsPath::new(AsyncMemoryFS::new());
+            let roots: Vec<AsyncVfsPath> = (1..=*n)
+                .map(|i| {
+                    let d = shared.join(format!("zl{i}")).unwrap();
+                    rt.block_on(d.create_dir()).unwrap();
+                    d
+                })
+                .collect();
+            Box::new(AsyncOverlayFS::new(&roots))
+        }
         Term::OvlShared(n) => {
             let shared = AsyncVfsPath::new(AsyncMemoryFS::new());
             let roots: Vec<AsyncVfsPath> = (1..=*n)
@@ -474,7 +485,7 @@ pub fn asup(t: &Term) -> Vec<&'static str> {
         Term::Phys => vec!["mo", "ac"],
         Term::Alt(_, t) | Term::Fault(t) => asup(t),
         Term::Ovl(v) => asup(&v[0]),
-        Term::OvlShared(_) => vec![],
+        Term::OvlShared(_) | Term::OvlSub(_) => vec![],
     }
 }
 
